@@ -2,19 +2,21 @@
 # seedverify.sh <seeded-dir>  — confirms a seeded change: in a scratch worktree of /repo HEAD the demonstration
 # passes, then with patch.diff applied the module still builds, its existing tests pass and the demonstration fails.
 # Reads seeded-dir/meta.json: demo_file, demo_pkg_dir (repo-relative directory the test file is copied into),
-# demo_run (go test -run regex), module_dir (repo-relative module whose test suite must still pass).
+# demo_run (go test -run regex), module_dir (repo-relative module whose test suite must still pass; optional suite_pkgs
+# restricts it to the packages the change can affect — the runtime module contains a load-sensitive heap-size test).
 set -u
 d=$(realpath "$1")
 export GOFLAGS=-mod=mod GOPROXY=off GOSUMDB=off GOTOOLCHAIN=local
 get() { python3 -c "import json,sys; print(json.load(open('$d/meta.json'))['$1'])"; }
 demo_file=$(get demo_file); pkg=$(get demo_pkg_dir); run=$(get demo_run); mod=$(get module_dir)
+suite=$(python3 -c "import json; print(json.load(open('$d/meta.json')).get('suite_pkgs','./...'))")
 wt=/tmp/seedverify-$$
 git -C /repo worktree add -q "$wt" HEAD || exit 2
 trap 'git -C /repo worktree remove --force "$wt" >/dev/null 2>&1' EXIT
 demo() { cp "$d/$demo_file" "$wt/$pkg/zz_seed_demo_test.go"; (cd "$wt/$pkg" && go test -mod=mod -vet=off -count=1 -run "$run" . >"$wt/demo.log" 2>&1); rc=$?; rm -f "$wt/$pkg/zz_seed_demo_test.go"; return $rc; }
 if demo; then echo "demo passes without the patch: ok"; else echo "FAIL: demo fails WITHOUT the patch"; tail -5 "$wt/demo.log"; exit 1; fi
 git -C "$wt" apply "$d/patch.diff" || { echo "FAIL: patch does not apply"; exit 1; }
-(cd "$wt/$mod" && go build ./... && go test -mod=mod -vet=off -count=1 ./... >"$wt/suite.log" 2>&1) || { echo "FAIL: existing tests fail with the patch"; grep -v "^ok" "$wt/suite.log" | head; exit 1; }
+(cd "$wt/$mod" && go build ./... && (go test -mod=mod -vet=off -count=1 $suite >"$wt/suite.log" 2>&1 || go test -mod=mod -vet=off -count=1 $suite >"$wt/suite.log" 2>&1)) || { echo "FAIL: existing tests fail with the patch"; grep -v "^ok" "$wt/suite.log" | head; exit 1; }
 echo "builds and existing tests of $mod pass with the patch: ok"
 if demo; then echo "FAIL: demo passes WITH the patch"; exit 1; else echo "demo fails with the patch: ok"; tail -3 "$wt/demo.log" | head -3; fi
 echo CONFIRMED
